@@ -324,6 +324,14 @@ func (s *socket) MaybeUpgrade(transport transports.Transport) {
 		transport.Close()
 		return
 	}
+	// the candidate may have passed the server's Upgraded() test before an
+	// earlier candidate completed the switch: the session upgrades at most once
+	if s.upgraded.Load() {
+		socket_log.Debug("transport had already been upgraded")
+		s.upgrading.Store(false)
+		transport.Close()
+		return
+	}
 
 	var check, cleanup func()
 	var onPacket, onError, onTransportClose, onClose events.Listener
@@ -343,10 +351,11 @@ func (s *socket) MaybeUpgrade(transport transports.Transport) {
 
 		} else if packet.UPGRADE == data.Type && s.ReadyState() != "closed" {
 			socket_log.Debug("got upgrade packet - upgrading")
+			// upgraded before cleanup() resets upgrading: a later candidate must
+			// at every moment see at least one of the two flags
+			s.upgraded.Store(true)
 			cleanup()
 			s.Transport().Discard()
-
-			s.upgraded.Store(true)
 
 			s.clearTransport()
 			s.setTransport(transport)
